@@ -191,18 +191,19 @@ def stepEv (st : MonSt) (x : EvActs) : Except String MonSt := do
             due == t && bypass && (replace || match sd.codeBlk with
               | some (exp, _) => t + dur * 1000 > exp
               | none => true)
-          -- …and the packet may also have left before any of them was executed
-          let flagOf := fun (cb : Option (Int × Bool)) => match cb with
+          let flagOf : Option (Int × Bool) → Bool := fun cb => match cb with
             | some (_, fl) => fl
             | none => false
-          let codeAllows := dueNowAllows || flagOf codeNow || flagOf sd.codeBlk
+          -- before any of the blocks due at this instant, after some of them, or after all of them
+          let codeAllows := flagOf sd.codeBlk || dueNowAllows || flagOf codeNow
           let tag := if e.bypass && codeAllows then "[F7-bypass-overwrite] "
             else if sd.blkFromStale || earlyBlock sd t e.bypass then "[S1-early-exec] " else ""
           throw s!"{tag}TunnelSent left the blocked {sideName e.client} (packet bypass={e.bypass}) | at {t}, padding={e.containsPadding}, every blocking action allowed bypass={b.allBypass}, expiry {b.expiry}"
       | none => pure sd
     | .paddingSent m =>
-      -- the action timer fired: the slot is emptied if it holds a SendPadding; a PaddingSent of a
-      -- superseded padding (executed early, reported by C17) leaves a pending BlockOutgoing alone
+      -- only a pending SendPadding is consumed by a PaddingSent (a PaddingSent of an action that
+      -- was executed early and then superseded by a BlockOutgoing must not clear the block: C17's
+      -- monitor reports that event)
       match sd.slots[m]?.join with
       | some (.sendPadding .., _) => pure { sd with slots := sd.slots.set m none }
       | _ => pure sd
